@@ -162,11 +162,64 @@ def optional_by_none(ctx):
         rep.ok("C24.R8", f"{SYS}:System", "no test of an optional numeric argument found (no verdict)", verdict="unknown", trivial=True)
 
 
+def closures_on_stateful_receivers(ctx, rule="C24.R11"):
+    """System.deepcopy copies the object graph; `self.l = self.subsystem.l` (a bound method) is re-bound to the copied subsystem, a lambda
+    `lambda t, q: subsystem.l(t, q)` keeps the ORIGINAL subsystem in its closure cell.  For a pure function of (t, q) that is harmless (the
+    copy computes the same values), for a STATEFUL query it is not: `Revolute.l` advances n_full_rotations / previous_quadrant on its
+    receiver, so the copy reads - and advances - the original's rotation counter, which its own re-assembly never resets.
+    Stateful method names: methods (outside __init__ / assembler_callback / reset / step_callback) that assign an attribute of self."""
+    rep = ctx.rep
+    SETUP = {"__init__", "assembler_callback", "reset", "step_callback", "export", "set_reference_strains"}
+    stateful = {}
+    for rel, mod in sorted(ctx.repo.modules.items()):
+        if not rel.startswith("cardillo/") or rel.startswith(("cardillo/solver/", "cardillo/visualization/", "cardillo/utility/")) or rel == "cardillo/system.py":
+            continue
+        for cls in [c for c in ast.walk(mod.tree) if isinstance(c, ast.ClassDef)]:
+            for f in [f for f in cls.body if isinstance(f, ast.FunctionDef) and f.name not in SETUP and not f.name.startswith("_")]:
+                if any(d for d in f.decorator_list if "setter" in norm_src(d)):
+                    continue
+                for w in ast.walk(f):
+                    if isinstance(w, (ast.Assign, ast.AugAssign)):
+                        tg = w.targets if isinstance(w, ast.Assign) else [w.target]
+                        if any(isinstance(t, ast.Attribute) and dotted(t.value) == "self" for t in tg):
+                            stateful.setdefault(f.name, f"{cls.name}.{f.name}")
+    n = 0
+    for rel, mod in sorted(ctx.repo.modules.items()):
+        if not rel.startswith("cardillo/"):
+            continue
+        for cls in [c for c in ast.walk(mod.tree) if isinstance(c, ast.ClassDef)]:
+            init = [f for f in cls.body if isinstance(f, ast.FunctionDef) and f.name == "__init__"]
+            if not init:
+                continue
+            params = {a.arg for a in init[0].args.args} - {"self"}
+            for w in ast.walk(init[0]):
+                if not (isinstance(w, ast.Assign) and isinstance(w.value, ast.Lambda) and any(isinstance(t, ast.Attribute) and dotted(t.value) == "self" for t in w.targets)):
+                    continue
+                lp = {a.arg for a in w.value.args.args}
+                calls = [c for c in ast.walk(w.value.body) if isinstance(c, ast.Call) and isinstance(c.func, ast.Attribute) and isinstance(c.func.value, ast.Name)
+                         and c.func.value.id in params and c.func.value.id not in lp]
+                if not calls:
+                    continue
+                n += 1
+                C = f"{rel}:{cls.name}.__init__"
+                bad = [c for c in calls if c.func.attr in stateful]
+                if bad:
+                    c = bad[0]
+                    rep.bad(rule, C, w, f"`{norm_src(w)[:80]}` closes over the constructor argument `{c.func.value.id}` and calls `{c.func.attr}` on it, a query that updates tracking state on its receiver "
+                            f"({stateful[c.func.attr]}): after System.deepcopy the copy's element still queries and advances the ORIGINAL object, whose state neither belongs to the restart "
+                            "state nor is reset by the copy's re-assembly (use the bound method / self.<attr>, which deepcopy re-binds)", f"{rel}:{w.lineno}")
+                else:
+                    rep.ok(rule, C, f"`{norm_src(w.targets[0])}` closes over `{calls[0].func.value.id}` and calls only state-free queries ({', '.join(sorted({c.func.attr for c in calls}))})")
+    rep.note(f"{rule}: stateful query names: {', '.join(sorted(stateful))}; {n} construction-time closures over constructor arguments")
+
+
 def run(ctx):
     rep = ctx.rep
     rep.rule("C24.R10", "re-assembly starts from scratch: every attribute System.assemble accumulates into is bound in assemble itself first (set_new_initial_state re-assembles; an accumulator from __init__ doubles the contact / friction data of the re-initialised copy)", 8)
     from .c14 import assemble_accumulators_reset
     assemble_accumulators_reset(ctx, "C24.R10")
+    rep.rule("C24.R11", "deep-copy isolation of stateful queries: no callable stored at construction closes over a constructor argument and calls on it a method that updates tracking state on its receiver (copy.deepcopy re-binds bound methods and attributes, not closures)", 10)
+    closures_on_stateful_receivers(ctx)
     rep.rule("C24.R1", "body-fixed joint data is not re-derived from new state + once-only world data", 2)
     rep.rule("C24.R2", "query-updated history state is not reset by re-assembly", 1)
     rep.rule("C24.R3", "set_new_initial_state / deepcopy", 5)
@@ -414,4 +467,13 @@ MUTANTS += [
 
 NEUTRAL += [
     dict(id="c24-n-r10", canary=True, what="System precomputes a global normal/friction connectivity list in assemble and resets it there", file='cardillo/system.py', edits=[('cardillo/system.py', '        e_F = []\n', '        e_F = []\n        self.NF_connectivity = []\n'), ('cardillo/system.py', '                for i_N, i_F, force_law in contr.friction_laws:\n                    if len(i_N) == 0:\n                        self.constant_force_reservoir = True\n', '                for i_N, i_F, force_law in contr.friction_laws:\n                    if len(i_N) == 0:\n                        self.constant_force_reservoir = True\n                    self.NF_connectivity.append((contr.la_NDOF[i_N], contr.la_FDOF[i_F], force_law))\n')]),
+]
+
+MUTANTS += [
+    dict(id="c24-r11-seed", canary=True, what="[seeded by sub-agent] ScalarForceLawBase binds l as a lambda over the constructor argument instead of the bound method (deepcopy keeps the original Revolute, whose l is stateful)", file='cardillo/force_laws/_base.py',
+         old="        self.l = self.subsystem.l\n", new="        self.l = lambda t, q: subsystem.l(t, q)\n", expect="C24.R11"),
+]
+NEUTRAL += [
+    dict(id="c24-n-r11", canary=True, what="ScalarForceLawBase binds l as a lambda over self.subsystem (attribute lookup at call time: deepcopy-safe)", file='cardillo/force_laws/_base.py',
+         old="        self.l = self.subsystem.l\n", new="        self.l = lambda t, q: self.subsystem.l(t, q)\n"),
 ]
